@@ -368,7 +368,16 @@ func srRun(cs srCase) *srResult {
 			// in-flight segment object had reached S3 without its index (orphan)
 			for i, l := range logs {
 				if arts[i] != nil && op.FailIx {
-					_ = s3.MemoryS3Client.UploadSegment(ctx, l.segmentKey(arts[i].BaseOffset), arts[i].SegmentBytes)
+					// Not generated: an .index left under the same key by an EARLIER failed flush
+					// (its index upload had succeeded) would pair up with this .kfs, and the
+					// restore would register a segment that uploadFlush never committed, with
+					// the index of the earlier, shorter buffer. That S3 state is outside
+					// model/ReadRestore.v (restore = the committed segments).
+					if _, stale := s3.MemoryS3Client.index[l.indexKey(arts[i].BaseOffset)]; stale {
+						res.tags["orphan-skipped-stale-index"] = true
+					} else {
+						_ = s3.MemoryS3Client.UploadSegment(ctx, l.segmentKey(arts[i].BaseOffset), arts[i].SegmentBytes)
+					}
 				}
 				arts[i] = nil
 			}
